@@ -13,7 +13,7 @@ func parserParse(fset *token.FileSet, filename string, src []byte) (*ast.File, e
 	return parser.ParseFile(fset, filename, src, parser.AllErrors|parser.ParseComments)
 }
 
-// storeRegions lists the region names a store of a value of type T through addr touches.
+// storeRegionNames lists the region names a store of a value of type T through addr touches.
 func (fc *FnCtx) storeRegionNames(addr ssa.Value, T types.Type) []string {
 	var out []string
 	var obj func(T types.Type)
@@ -63,211 +63,6 @@ func (fc *FnCtx) storeRegionNames(addr ssa.Value, T types.Type) []string {
 	return out
 }
 
-// baseIndex returns the first index term (object ref / backing base) of an
-// address computed outside the loop, or nil when it varies inside the loop.
-func (fc *FnCtx) baseIndex(addr ssa.Value, li *loopInfo) []Term {
-	inLoop := func(v ssa.Value) bool {
-		if in, ok := v.(ssa.Instruction); ok {
-			return li.body[in.Block()]
-		}
-		return false
-	}
-	switch a := addr.(type) {
-	case *ssa.FieldAddr:
-		if !inLoop(a.X) {
-			if v, ok := fc.vals[a.X]; ok && v.S != "" {
-				st0 := a.X.Type().Underlying().(*types.Pointer).Elem()
-				fp := fc.vc.fieldPtr(v.S, st0, a.Field)
-				if fp.Loc != nil {
-					return []Term{fp.Loc.Idx[0]}
-				}
-				return []Term{fp.S}
-			}
-			if _, isParam := a.X.(*ssa.Parameter); isParam {
-				v := fc.val(a.X)
-				return []Term{v.S}
-			}
-		}
-	case *ssa.IndexAddr:
-		if !inLoop(a.X) {
-			if v, ok := fc.vals[a.X]; ok {
-				if v.K == KSlice && !isObjectType(a.Type().(*types.Pointer).Elem()) {
-					return []Term{v.Sl.Base}
-				}
-				if v.K == KPtr && v.S != "" && !isObjectType(a.Type().(*types.Pointer).Elem()) {
-					return []Term{v.S}
-				}
-			}
-		}
-	default:
-		if !inLoop(addr) {
-			if v, ok := fc.vals[addr]; ok {
-				if v.Loc != nil && len(v.Loc.Idx) > 0 {
-					return []Term{v.Loc.Idx[0]}
-				}
-				if v.S != "" && v.Loc == nil && !isObjectType(v.T.Underlying().(*types.Pointer).Elem()) {
-					return []Term{v.S}
-				}
-			}
-		}
-	}
-	return nil
-}
-
-// instrWrites reports the regions (and ghosts) an instruction in a loop body may write.
-func (eng *Engine) instrWrites(fc *FnCtx, in ssa.Instruction, li *loopInfo, region func(string, []Term), ghost func(string)) {
-	switch in := in.(type) {
-	case *ssa.Store:
-		names := fc.storeRegionNames(in.Addr, in.Val.Type())
-		idx := fc.baseIndex(in.Addr, li)
-		if isObjectType(in.Val.Type()) {
-			idx = nil
-			if v, ok := fc.vals[in.Addr]; ok && v.S != "" {
-				if ii, isInstr := in.Addr.(ssa.Instruction); !isInstr || !li.body[ii.Block()] {
-					if _, isStruct := in.Val.Type().Underlying().(*types.Struct); isStruct && !hasNestedObjects(in.Val.Type()) {
-						idx = []Term{v.S}
-					}
-				}
-			}
-		}
-		for _, n := range names {
-			fc.ensureRegion(n, in.Addr, in.Val.Type())
-			region(n, idx)
-		}
-	case *ssa.MapUpdate:
-		for _, n := range fc.mapRegionNames(in.Map.Type()) {
-			region(n, nil)
-		}
-	case ssa.CallInstruction:
-		cc := in.Common()
-		if b, ok := cc.Value.(*ssa.Builtin); ok {
-			switch b.Name() {
-			case "copy":
-				et := cc.Args[0].Type().Underlying().(*types.Slice).Elem()
-				for _, lf := range cellLeaves(et) {
-					n := "elem<" + leafTypeName(et) + ">" + lf.suffix
-					var idx []Term
-					if v, ok := fc.vals[cc.Args[0]]; ok && v.K == KSlice {
-						if ii, isInstr := cc.Args[0].(ssa.Instruction); !isInstr || !li.body[ii.Block()] {
-							idx = []Term{v.Sl.Base}
-						}
-					}
-					region(n, idx)
-				}
-			case "append":
-				et := cc.Args[0].Type().Underlying().(*types.Slice).Elem()
-				if !isObjectType(et) {
-					for _, lf := range cellLeaves(et) {
-						region("elem<"+leafTypeName(et)+">"+lf.suffix, nil)
-					}
-				}
-			case "delete":
-				for _, n := range fc.mapRegionNames(cc.Args[0].Type()) {
-					region(n, nil)
-				}
-			}
-			return
-		}
-		if _, isGo := in.(*ssa.Go); isGo {
-			fc.hookGhosts(cc, ghost)
-			return
-		}
-		fc.hookGhosts(cc, ghost)
-		var con *Contract
-		var callee *ssa.Function
-		if cc.IsInvoke() {
-			con = eng.cs.Funcs["iface:"+typeName(cc.Value.Type())+"."+cc.Method.Name()]
-		} else if f := cc.StaticCallee(); f != nil {
-			con = eng.contractFor(f)
-			callee = f
-		} else if u, ok := cc.Value.(*ssa.UnOp); ok {
-			if fa, ok := u.X.(*ssa.FieldAddr); ok {
-				st0 := fa.X.Type().Underlying().(*types.Pointer).Elem()
-				con = eng.cs.Funcs["fnfield:"+typeName(st0)+"."+structOf(st0).Field(fa.Field).Name()]
-			}
-		}
-		if con == nil {
-			if callee != nil && eng.inlinable(callee) {
-				// inlined helper: its own stores count
-				for _, b := range callee.Blocks {
-					for _, i2 := range b.Instrs {
-						if s, ok := i2.(*ssa.Store); ok {
-							for _, n := range fc.storeRegionNames(s.Addr, s.Val.Type()) {
-								fc.ensureRegion(n, s.Addr, s.Val.Type())
-								region(n, nil)
-							}
-						} else if _, ok := i2.(ssa.CallInstruction); ok {
-							eng.instrWrites(fc, i2, li, func(n string, _ []Term) { region(n, nil) }, ghost)
-						}
-					}
-				}
-				return
-			}
-			// unknown callee: slices passed may be overwritten
-			for _, a := range cc.Args {
-				if s, ok := a.Type().Underlying().(*types.Slice); ok && !isObjectType(s.Elem()) {
-					for _, lf := range cellLeaves(s.Elem()) {
-						region("elem<"+leafTypeName(s.Elem())+">"+lf.suffix, nil)
-					}
-				}
-			}
-			return
-		}
-		if len(con.Modifies) == 0 {
-			return
-		}
-		// evaluate the callee's frame with placeholder arguments to learn region names
-		ci := calleeInfo{sig: cc.Signature(), con: con, fn: callee}
-		allOutside := true
-		var args []ssa.Value
-		if cc.IsInvoke() {
-			args = append(args, cc.Value)
-			ci.isIface = true
-		} else if callee == nil {
-			if u, ok := cc.Value.(*ssa.UnOp); ok {
-				if fa, ok := u.X.(*ssa.FieldAddr); ok {
-					args = append(args, fa.X)
-					ci.isIface = true
-				}
-			}
-		}
-		args = append(args, cc.Args...)
-		for _, a := range args {
-			if v, ok := fc.vals[a]; ok {
-				if ii, isInstr := a.(ssa.Instruction); isInstr && li.body[ii.Block()] {
-					allOutside = false
-				}
-				ci.args = append(ci.args, v)
-			} else if _, isConst := a.(*ssa.Const); isConst {
-				ci.args = append(ci.args, fc.val(a))
-			} else {
-				allOutside = false
-				ci.args = append(ci.args, fc.freshVal("ph", a.Type()))
-			}
-		}
-		env := fc.calleeEnv(ci, fc.vc.st, fc.vc.st)
-		for _, m := range con.Modifies {
-			for _, t := range fc.evalTargets(m.Expr, env) {
-				switch {
-				case t.Any:
-					for n := range eng.regions {
-						region(n, nil)
-					}
-					for g := range eng.cs.Ghosts {
-						ghost(g)
-					}
-				case t.Ghost != "":
-					ghost(t.Ghost)
-				case t.Whole || !allOutside:
-					region(t.Region, nil)
-				default:
-					region(t.Region, t.Idx[:1])
-				}
-			}
-		}
-	}
-}
-
 func hasNestedObjects(T types.Type) bool {
 	s := structOf(T)
 	if s == nil {
@@ -286,7 +81,6 @@ func (fc *FnCtx) ensureRegion(name string, addr ssa.Value, T types.Type) {
 	if _, ok := fc.eng.regions[name]; ok {
 		return
 	}
-	// derive arity and leaf sort from the name's shape
 	nidx := 1
 	if len(name) > 5 && name[:5] == "elem<" {
 		nidx = 2
@@ -294,12 +88,8 @@ func (fc *FnCtx) ensureRegion(name string, addr ssa.Value, T types.Type) {
 	if len(name) > 2 && name[:2] == "g:" {
 		nidx = 0
 	}
-	leaf := "Int"
-	var find func(T types.Type, suffixOf string) bool
-	find = func(T types.Type, n string) bool { return false }
-	_ = find
-	// leaf sort: from T when T is not an object; object stores are registered on first real access
 	if !isObjectType(T) {
+		leaf := "Int"
 		for _, lf := range cellLeaves(T) {
 			if len(name) >= len(lf.suffix) && name[len(name)-len(lf.suffix):] == lf.suffix {
 				leaf = leafSort(lf.kind)
@@ -308,7 +98,6 @@ func (fc *FnCtx) ensureRegion(name string, addr ssa.Value, T types.Type) {
 		fc.eng.regions[name] = regionInfo{nidx, leaf}
 		return
 	}
-	// object: find the field by name
 	var walk func(T types.Type)
 	walk = func(T types.Type) {
 		switch u := T.Underlying().(type) {
@@ -342,15 +131,18 @@ func (fc *FnCtx) ensureRegion(name string, addr ssa.Value, T types.Type) {
 }
 
 // ---------------------------------------------------------------------------
-// inlining of small contract-less same-module helpers
+// inlining of small contract-less helpers
 
 func (fc *FnCtx) inlineCall(ci calleeInfo, in ssa.Instruction, st *State, resT types.Type) Val {
-	sub := &FnCtx{vc: fc.vc, eng: fc.eng, fn: ci.fn, con: nil, pkg: fc.eng.pkgs[ci.fn.Pkg.Pkg.Path()], vals: map[ssa.Value]Val{},
+	var pkg *PkgInfo
+	if ci.fn.Pkg != nil {
+		pkg = fc.eng.pkgs[ci.fn.Pkg.Pkg.Path()]
+	}
+	sub := &FnCtx{vc: fc.vc, eng: fc.eng, fn: ci.fn, con: nil, pkg: pkg, vals: map[ssa.Value]Val{},
 		reach: map[*ssa.BasicBlock]Term{}, out: map[*ssa.BasicBlock]*State{}, done: map[*ssa.BasicBlock]bool{},
 		counts: fc.counts, params: map[string]Val{}, unknownCallees: fc.unknownCallees, depth: fc.depth + 1, inline: true,
-		old: fc.old, na0: fc.na0, nowrap: fc.nowrap}
+		old: fc.old, na0: fc.na0, nowrap: fc.nowrap, frameParent: fc}
 	sub.findLoops()
-	sub.frameParent = fc
 	for i, p := range ci.fn.Params {
 		sub.vals[p] = ci.args[i]
 		sub.params[p.Name()] = ci.args[i]
@@ -362,17 +154,17 @@ func (fc *FnCtx) inlineCall(ci calleeInfo, in ssa.Instruction, st *State, resT t
 	}
 	entry := ci.fn.Blocks[0]
 	start := st.clone()
+	sub.cur = entry
+	sub.reach[entry] = fc.reach[fc.cur]
 	for _, b := range sub.order() {
-		if b == entry {
-			sub.cur = b
-			sub.reach[b] = fc.reach[fc.cur]
-		}
 		sub.execBlock(b, start)
 	}
+	fc.vc.st = st
 	fc.obls = append(fc.obls, sub.obls...)
-	fc.notes = append(fc.notes, sub.notes...)
+	for _, n := range sub.notes {
+		fc.note("%s", n)
+	}
 	fc.note("inlined helper %s", ci.name)
-	// merge return states
 	if len(sub.retVals) == 0 {
 		fc.reach[fc.cur] = "false"
 		return Val{K: KUnit}
@@ -381,19 +173,16 @@ func (fc *FnCtx) inlineCall(ci calleeInfo, in ssa.Instruction, st *State, resT t
 	for _, r := range sub.retVals {
 		conds = append(conds, r.reach)
 	}
-	// merged heap
 	tmp := &FnCtx{vc: fc.vc, eng: fc.eng, out: map[*ssa.BasicBlock]*State{}, reach: map[*ssa.BasicBlock]Term{}}
 	var es []inEdge
-	fake := make([]*ssa.BasicBlock, len(sub.retVals))
 	for i, r := range sub.retVals {
-		fake[i] = &ssa.BasicBlock{Index: i}
-		tmp.out[fake[i]] = r.st
-		es = append(es, inEdge{pred: fake[i], cond: r.reach})
+		fake := &ssa.BasicBlock{Index: i}
+		tmp.out[fake] = r.st
+		es = append(es, inEdge{pred: fake, cond: r.reach})
 	}
 	merged := tmp.mergeStates(es)
 	*st = *merged
-	fc.vc.st = st
-	// the call returns only if some return was reached
+	// the call returns only if some return was reached (otherwise it panicked, which has its own obligation)
 	fc.assume(or(conds...))
 	if resT == nil {
 		return Val{K: KUnit}
